@@ -1035,7 +1035,7 @@ func (s *Sim) GenMultiSign(t *rapid.T) *Tx {
 	}
 	keys := s.ValKeys
 	if rapid.IntRange(0, 5).Draw(t, "toofewvals") == 0 {
-		keys = keys[:2]
+		keys = keys[:len(keys)/2]
 	}
 	nonce := s.W.App.GetNonce(types.MultiSignNonceAddr)
 	tx := world.MultiSignTx(nonce, 1, set, powers, keys)
